@@ -10,6 +10,8 @@ import Echse.Lemmas.RuleExt5
 import Echse.Lemmas.RuleExt7
 import Echse.Lemmas.RuleExt8
 import Echse.Lemmas.RuleExt15
+import Echse.Lemmas.RuleExt17
+import Echse.Lemmas.RuleExt19
 namespace C17
 open Echse.Rrule Echse.Spec.Cal Echse.Spec.RuleExt
 
@@ -39,13 +41,13 @@ theorem easter_is_sunday (y : Nat) (h : YearOk y) : wdayOf (easterDay y) = 7 := 
 theorem byeaster_selects (y : Nat) (o : Int) (h : YearOk y) (ho : -366 ≤ o ∧ o ≤ 366)
     (hin : days y 1 1 ≤ easterDay y + o ∧ easterDay y + o ≤ days y 12 31) :
     ∃ c, fillYlyEastr [] y [o] [] [] 0 = [c] ∧ ValidCand y c ∧ candDay y c = easterDay y + o := by
-  sorry
+  exact Echse.RuleExt.byeaster_selects y o h.1 h.2 hin
 
 /-- finding D61 (recorded): an offset that leaves the calendar year selects nothing -/
 theorem byeaster_outside_year_dropped (y : Nat) (o : Int) (h : YearOk y) (ho : -366 ≤ o ∧ o ≤ 366)
     (hout : easterDay y + o < days y 1 1 ∨ days y 12 31 < easterDay y + o) :
     fillYlyEastr [] y [o] [] [] 0 = [] := by
-  sorry
+  exact Echse.RuleExt.byeaster_outside y o h.1 h.2 ho hout
 
 /-- several offsets select the union of what each selects -/
 theorem byeaster_many (y : Nat) (offs : List Int) (c : Nat) (h : YearOk y) (ho : ∀ o ∈ offs, -366 ≤ o ∧ o ≤ 366) :
@@ -78,21 +80,62 @@ theorem shift_366_reaches_two_years_back :
 
 /-! ### SHIFT=NB (business days) -/
 
-/-- SHIFT=NB / NB+ / NB- / -0B: the result is the date the specification `shiftB` names -/
+/- SHIFT=NB / NB+ / NB- / -0B: the result is the date the specification `shiftB` names.
+ORIGINAL STATEMENT -- FALSE for y = 2098 (echse takes 2100 for a leap year: `__get_ndom` tests `y % 4` only, and
+`reassess` then counts a February 29th, 2100):
+
 theorem shift_bdays_one (y c count : Nat) (back keep : Bool) (hy : 1902 ≤ y ∧ y ≤ 2098) (hc : ValidCand y c)
     (hcount : count ≤ 366) :
     ∃ ny nm nd : Nat, 1 ≤ nm ∧ nm ≤ 12 ∧ 1 ≤ nd ∧ nd ≤ monthLen ny nm ∧
       days ny nm nd = shiftB (candDay y c) count back keep ∧
-      shift { same := [c] } y (mkShift 0 count back keep) = Cand3.ass {} (bucket y ny) (packCand nm nd) := by
-  sorry
+      shift { same := [c] } y (mkShift 0 count back keep) = Cand3.ass {} (bucket y ny) (packCand nm nd)
 
-/-- SHIFT=n,NB: first the calendar days, then the business days (when the day part stays within the neighbouring years) -/
+Counterexample (theorem `shift_bdays_one_counterexample` below): y = 2098, c = packCand 12 31, count = 366,
+back = keep = false.  `shift` yields { next := [packCand 5 26] } (2100-05-26, day number 767095), the specification
+names day 767096 = 2100-05-27.  From 2098-12-31 every count 303..366 fails (all that pass 2100-02-28). -/
+
+/-- the counterexample to the original `shift_bdays_one` -/
+theorem shift_bdays_one_counterexample :
+    shift { same := [packCand 12 31] } 2098 (mkShift 0 366 false false) = { next := [packCand 5 26] } ∧
+    shiftB (candDay 2098 (packCand 12 31)) 366 false false = days 2100 5 27 ∧ days 2100 5 26 = days 2100 5 27 - 1 := by
+  decide +kernel
+
+/-- SHIFT=NB / NB+ / NB- / -0B: the result is the date the specification `shiftB` names -- as long as the result
+does not lie beyond 2100-02-28 (always so for y ≤ 2097) -/
+theorem shift_bdays_one_partial (y c count : Nat) (back keep : Bool) (hy : 1902 ≤ y ∧ y ≤ 2098) (hc : ValidCand y c)
+    (hcount : count ≤ 366) (hlim : y ≤ 2097 ∨ shiftB (candDay y c) count back keep ≤ days 2100 2 28) :
+    ∃ ny nm nd : Nat, 1 ≤ nm ∧ nm ≤ 12 ∧ 1 ≤ nd ∧ nd ≤ monthLen ny nm ∧
+      days ny nm nd = shiftB (candDay y c) count back keep ∧
+      shift { same := [c] } y (mkShift 0 count back keep) = Cand3.ass {} (bucket y ny) (packCand nm nd) := by
+  exact Echse.RuleExt.shift_bdays_one y c count back keep hy hc hcount hlim
+
+/- SHIFT=n,NB: first the calendar days, then the business days.
+ORIGINAL STATEMENT -- FALSE for y = 2097 (same cause: the business-day part crosses echse's February 29th, 2100):
+
 theorem shift_both_one (y c count : Nat) (n : Int) (back keep : Bool) (hy : 1903 ≤ y ∧ y ≤ 2097) (hc : ValidCand y c)
     (hn : n ≠ 0 ∧ -365 ≤ n ∧ n ≤ 365) (hcount : count ≤ 366) :
     ∃ ny nm nd : Nat, 1 ≤ nm ∧ nm ≤ 12 ∧ 1 ≤ nd ∧ nd ≤ monthLen ny nm ∧
       days ny nm nd = shiftB (candDay y c + n) count back keep ∧
+      shift { same := [c] } y (mkShift n count back keep) = Cand3.ass {} (bucket y ny) (packCand nm nd)
+
+Counterexample (theorem `shift_both_one_counterexample` below): y = 2097, c = packCand 12 31, n = 365, count = 366,
+back = keep = false: `shift` yields { next := [packCand 5 26] }, the specification names 767096 = 2100-05-27. -/
+
+/-- the counterexample to the original `shift_both_one` -/
+theorem shift_both_one_counterexample :
+    shift { same := [packCand 12 31] } 2097 (mkShift 365 366 false false) = { next := [packCand 5 26] } ∧
+    shiftB (candDay 2097 (packCand 12 31) + 365) 366 false false = days 2100 5 27 := by
+  decide +kernel
+
+/-- SHIFT=n,NB: first the calendar days, then the business days (when the day part stays within the neighbouring
+years) -- as long as the result does not lie beyond 2100-02-28 (always so for y ≤ 2096) -/
+theorem shift_both_one_partial (y c count : Nat) (n : Int) (back keep : Bool) (hy : 1903 ≤ y ∧ y ≤ 2097)
+    (hc : ValidCand y c) (hn : n ≠ 0 ∧ -365 ≤ n ∧ n ≤ 365) (hcount : count ≤ 366)
+    (hlim : y ≤ 2096 ∨ shiftB (candDay y c + n) count back keep ≤ days 2100 2 28) :
+    ∃ ny nm nd : Nat, 1 ≤ nm ∧ nm ≤ 12 ∧ 1 ≤ nd ∧ nd ≤ monthLen ny nm ∧
+      days ny nm nd = shiftB (candDay y c + n) count back keep ∧
       shift { same := [c] } y (mkShift n count back keep) = Cand3.ass {} (bucket y ny) (packCand nm nd) := by
-  sorry
+  exact Echse.RuleExt.shift_both_one y c count n back keep hy hc hn hcount hlim
 
 /-- a set of dates is shifted date by date: every result comes from one candidate, every candidate yields its result -/
 theorem shift_set (y : Nat) (cs : List Nat) (sh : Int) (k c' : Nat) :
